@@ -114,6 +114,11 @@ def constructed(rng):
             for c in (M, -M, -17 * P10[s], 17 * P10[s], -P10[s], P10[s]):
                 if abs(c) <= M:
                     out.append("%s %s%s" % (op, G.fD(c, s), " D0:0" if op == "nt" else ""))
+    for s in range(1, 19):
+        for c in G.split_values(rng, s, 2):
+            for sgn in (1, -1):
+                for op in ("floor", "ceil", "trunc", "fract", "magn"):
+                    out.append("%s %s" % (op, G.fD(sgn * c, s)))
     # abs_sub: x <= y with unrepresentable difference must still give zero
     for x, y in (((-M, 0), (M, 0)), ((-P10[25], 0), (1, 18)), ((-M, 18), (P10[22], 0)), ((M, 0), (-M, 0)),
                  ((5, 1), (5, 1)), ((50, 2), (5, 1)), ((M, 0), (1, 18)), ((M, 5), (M, 5)), ((M, 5), (-1, 5))):
